@@ -292,3 +292,105 @@ pub proof fn lemma_cfb8_register_shift(s: Seq<u8>, c: u8)
     ensures s.skip(1).push(c).len() == s.len(), s.skip(1).push(c)[s.len() - 1] == c,
             forall |i: int| 0 <= i < s.len() - 1 ==> s.skip(1).push(c)[i] == s[i + 1]
 {}
+
+// ---------- C14: ciphertext stealing on a whole number of blocks ----------
+// CBC-CS1 and CBC-CS2 equal plain CBC; CBC-CS3 equals it with the last two blocks exchanged (one block: plain)
+pub proof fn lemma_cbc_cs_whole_blocks(e: spec_fn(Blk) -> Blk, iv: Blk, ps: Seq<Blk>)
+    requires ps.len() >= 1
+    ensures
+        cbc_cs_enc(1, e, iv, ps, Seq::empty()) == flatg(cbc_chain(e, iv, ps)),
+        cbc_cs_enc(2, e, iv, ps, Seq::empty()) == flatg(cbc_chain(e, iv, ps)),
+        ps.len() == 1 ==> cbc_cs_enc(3, e, iv, ps, Seq::empty()) == flatg(cbc_chain(e, iv, ps)),
+        ps.len() >= 2 ==> ({
+            let cs = cbc_chain(e, iv, ps); let n = ps.len() as int;
+            cbc_cs_enc(3, e, iv, ps, Seq::empty()) == flatg(cs.take(n - 2).push(cs[n - 1]).push(cs[n - 2]))
+        }),
+{
+    let cs = cbc_chain(e, iv, ps); let n = ps.len() as int;
+    run_len(cbc_enc_step(e), seq![iv], ps);
+    if n >= 2 {
+        flatg_push(cs.take(n - 2).push(cs[n - 1]), cs[n - 2]);
+        flatg_push(cs.take(n - 2), cs[n - 1]);
+    }
+}
+// the ECB variants equal raw block encryption (same exchange for CS3)
+pub proof fn lemma_ecb_cs_whole_blocks(e: spec_fn(Blk) -> Blk, b: nat, ps: Seq<Blk>)
+    requires ps.len() >= 1
+    ensures
+        ecb_cs_enc(1, e, b, ps, Seq::empty()) == flatg(ecb_map(e, ps)),
+        ecb_cs_enc(2, e, b, ps, Seq::empty()) == flatg(ecb_map(e, ps)),
+        ps.len() == 1 ==> ecb_cs_enc(3, e, b, ps, Seq::empty()) == flatg(ecb_map(e, ps)),
+        ps.len() >= 2 ==> ({
+            let cs = ecb_map(e, ps); let n = ps.len() as int;
+            ecb_cs_enc(3, e, b, ps, Seq::empty()) == flatg(cs.take(n - 2).push(cs[n - 1]).push(cs[n - 2]))
+        }),
+{
+    let cs = ecb_map(e, ps); let n = ps.len() as int;
+    if n >= 2 {
+        flatg_push(cs.take(n - 2).push(cs[n - 1]), cs[n - 2]);
+        flatg_push(cs.take(n - 2), cs[n - 1]);
+    }
+}
+// the CBC helper of the cts crate and the cbc crate's backend are the same transducer: both are stated
+// against run(cbc_enc_step / cbc_dec_step) -- cts_lib::cbc_enc#chain, cbc_encrypt::...::encrypt_block#trait-contract
+// buffered CFB on whole blocks from a block boundary equals block-level CFB (one step)
+pub proof fn lemma_cfb_buf_block(e: spec_fn(Blk) -> Blk, ks: Seq<u8>, p: Seq<u8>, enc: bool)
+    requires ks.len() == p.len(), p.len() >= 1
+    ensures ({
+        let r = cfb_buf_run(e, ks, 0, p, enc);
+        let c = xor_seq(p, ks);
+        &&& r.2 == c
+        &&& r.1 == 0
+        &&& r.0 == e(if enc { c } else { p })
+    })
+{
+    lemma_cfb_buf_prefix(e, ks, ks, 0, p, enc);
+    let c = xor_seq(p, ks);
+    assert(cfb_buf_run(e, ks, 0, p, enc).2 =~= c);
+    assert(cfb_fin(ks, ks, 0, p, enc) =~= (if enc { c } else { p }));
+}
+pub open spec fn cfb_fin(reg: Seq<u8>, ks: Seq<u8>, pos: int, p: Seq<u8>, enc: bool) -> Seq<u8> {
+    Seq::new(ks.len(), |i: int| if i < pos { reg[i] } else if enc { p[i - pos] ^ ks[i] } else { p[i - pos] })
+}
+// generalisation used by the induction: starting at position pos with the first pos bytes of the register
+// already replaced, processing the remaining b - pos bytes completes the block
+pub proof fn lemma_cfb_buf_prefix(e: spec_fn(Blk) -> Blk, ks: Seq<u8>, reg: Seq<u8>, pos: int, p: Seq<u8>, enc: bool)
+    requires
+        0 <= pos < ks.len(), reg.len() == ks.len(), p.len() == ks.len() - pos,
+        forall |i: int| pos <= i < ks.len() ==> reg[i] == ks[i],
+    ensures ({
+        let r = cfb_buf_run(e, reg, pos, p, enc);
+        let b = ks.len() as int;
+        &&& r.1 == 0
+        &&& r.2.len() == p.len()
+        &&& forall |i: int| 0 <= i < p.len() ==> r.2[i] == p[i] ^ ks[pos + i]
+        &&& r.0 == e(cfb_fin(reg, ks, pos, p, enc))
+    })
+    decreases p.len()
+{
+    let b = ks.len() as int;
+    let x = p[0];
+    let o = x ^ reg[pos];
+    let fb = if enc { o } else { x };
+    let reg1 = reg.update(pos, fb);
+    let fin = cfb_fin(reg, ks, pos, p, enc);
+    if pos + 1 == b {
+        assert(p.skip(1) =~= Seq::<u8>::empty());
+        assert(reg1 =~= fin);
+        let r = cfb_buf_run(e, reg, pos, p, enc);
+        let r1 = cfb_buf_run(e, e(reg1), 0, p.skip(1), enc);
+        assert(r1 == (e(reg1), 0int, Seq::<u8>::empty()));
+        assert(r == (r1.0, r1.1, seq![o] + r1.2));
+        assert(r.2 =~= seq![o]);
+    } else {
+        lemma_cfb_buf_prefix(e, ks, reg1, pos + 1, p.skip(1), enc);
+        let r1 = cfb_buf_run(e, reg1, pos + 1, p.skip(1), enc);
+        let fin1 = cfb_fin(reg1, ks, pos + 1, p.skip(1), enc);
+        assert(fin1 =~= fin);
+        let r = cfb_buf_run(e, reg, pos, p, enc);
+        assert(r.2 =~= seq![o] + r1.2);
+        assert forall |i: int| 0 <= i < p.len() implies r.2[i] == p[i] ^ ks[pos + i] by {
+            if i > 0 { assert(r.2[i] == r1.2[i - 1]); assert(p.skip(1)[i - 1] == p[i]); }
+        }
+    }
+}
